@@ -9,8 +9,14 @@ package utils
 //@ func RenderString
 //@   nomod
 //@   ensures !exitOK(result#1)
+// envPair(k, v): the "k=v" string built by ConvertEnv (fmt.Sprintf is not modelled)
+//@ fun envPair(k string, v string) string
+// ConvertEnv: ASSUMED (map iteration + Sprintf): one pair per entry of the map, nothing else
 //@ func ConvertEnv
 //@   nomod
+//@   ensures fresh(result) || len(result) == 0
+//@   ensures forall j int :: 0 <= j && j < len(result) ==> (exists k string :: (k in env) && result[j] == envPair(k, env[k]))
+//@   ensures forall k string :: (k in env) ==> (exists j int :: 0 <= j && j < len(result) && result[j] == envPair(k, env[k]))
 //@ func ConvertToMapOfStrings
 //@   nomod
 //@ func IsExitError
